@@ -12,6 +12,7 @@ tie   : op-sequence differential.  One PRNG draws operation sequences; each is r
             itself (values to interpolation accuracy, per-side dispatch, shapes, errors,
             strictly increasing table, row-wise dropping, write+read round trip).
 """
+import itertools
 import json
 import logging
 import os
@@ -35,6 +36,7 @@ EXPLANATION = (
     "the real class with the real scipy spline.")
 
 MODES = ["ERROR", "NONE", "CONSTANT", "FUNCTION"]
+JOBS = max(1, min(4, (os.cpu_count() or 2) // 2))        # concurrent coqc processes
 GRID = 8                    # evaluation points are multiples of 1/8
 ERRS = {"ValueError": "EValue", "AssertionError": "EAssert", "IndexError": "EIndex"}
 
@@ -56,7 +58,7 @@ def _points(rng, rng_nom, m):
     if rng_nom is None:
         return [_g(rng, -4, 4) for _ in range(m)], "notable"
     L, U = rng_nom
-    cat = rng.choice(["inside", "below", "above", "mixed", "mixed", "edge", "outside2"])
+    cat = rng.choice(["inside", "below", "above", "mixed", "mixed", "edge", "outside2", "ulp"])
     pts = []
     for _ in range(m):
         c = cat
@@ -64,6 +66,12 @@ def _points(rng, rng_nom, m):
             c = rng.choice(["inside", "below", "above", "edge"])
         if cat == "outside2":
             c = rng.choice(["below", "above"])
+        if c == "ulp":
+            # within a few ulp of a (nominal) table end, on either side of it
+            e = rng.choice([L, U])
+            j = rng.choice([1, 1, 2, 3, 10, 1000, 10 ** 6])
+            pts.append(float(e + rng.choice([-1, 1]) * j * np.spacing(abs(e) if e else 1.0)))
+            continue
         if c == "inside":
             pts.append(_g(rng, L, U))
         elif c == "below":
@@ -76,12 +84,51 @@ def _points(rng, rng_nom, m):
 
 
 def _shape(rng):
-    kind = rng.choice(["scalar", "list", "arr1", "arr2"])
-    if kind == "scalar":
+    kind = rng.choice(["scalar", "list", "arr1", "arr2", "scalar", "list", "arr1", "arr2", "arr0",
+                       "empty"])
+    if kind in ("scalar", "arr0"):
         return kind, []
+    if kind == "empty":
+        return kind, [0]
     if kind in ("list", "arr1"):
         return kind, [rng.randint(1, 5)]
     return kind, [rng.randint(1, 3), rng.randint(1, 3)]
+
+
+def _typed(rng, op):
+    """vary the dtype of the input (the property quantifies over every legal inputType)"""
+    r = rng.random()
+    if r < 0.14:
+        op["dtype"] = "int"
+        op["pts"] = [float(round(p)) for p in op["pts"]]
+    elif r < 0.22:
+        op["dtype"] = "f32"
+        op["pts"] = [float(np.float32(p)) for p in op["pts"]]
+    return op
+
+
+def _xs_variant(rng, nom):
+    """abscissae of a user-supplied table: increasing / reversed / glued from two pieces /
+    with a duplicate / shuffled"""
+    if nom is None or rng.random() < 0.5:
+        a = _g(rng, -3, 1)
+        b = a + rng.choice([1, 2, 4]) / rng.choice([1, 2])
+    else:
+        a = nom[0] - rng.choice([0, 1, 2]) / 2
+        b = nom[1] + rng.choice([0, 1, 2]) / 2
+    n = rng.choice([2, 3, 5, 9])
+    xs = [a + (b - a) * i / (n - 1) for i in range(n)]
+    how = rng.choice(["incr", "incr", "incr", "rev", "glued", "dup", "shuffled"])
+    if how == "rev":
+        xs = xs[::-1]
+    elif how == "glued":
+        h = n // 2
+        xs = xs[:h + 1][::-1] + xs[h + 1:]
+    elif how == "dup":
+        xs = xs[:1] + xs
+    elif how == "shuffled":
+        rng.shuffle(xs)
+    return xs, how, (a, b)
 
 
 def gen_seq(rng, maxlen):
@@ -93,6 +140,9 @@ def gen_seq(rng, maxlen):
         w = rng.choice([1, 3, 6, 12]) / GRID
         # boundaries off every grid the tables can hit
         cfg["bad"] = [c - w + 2.0 ** -9 + 2.0 ** -15, c + w + 2.0 ** -9 + 2.0 ** -15]
+        # which component of the row is non-finite, and how
+        cfg["badcol"] = rng.randrange(k)
+        cfg["badval"] = rng.choice(["nan", "nan", "inf", "-inf"])
     ops = []
     nom = None
     n = rng.randint(max(3, maxlen - 4), maxlen)
@@ -109,8 +159,8 @@ def gen_seq(rng, maxlen):
             kind, shape = _shape(rng)
             m = int(np.prod(shape)) if shape else 1
             pts, cat = _points(rng, nom, m)
-            ops.append(dict(op="eval", use=rng.random() < 0.9, kind=kind, shape=shape, pts=pts,
-                            cat=cat))
+            ops.append(_typed(rng, dict(op="eval", use=rng.random() < 0.9, kind=kind, shape=shape,
+                                        pts=pts, cat=cat, via=rng.choice(["evaluate", "call"]))))
         elif r < 0.56:
             kind, shape = _shape(rng)
             m = int(np.prod(shape)) if shape else 1
@@ -118,9 +168,10 @@ def gen_seq(rng, maxlen):
             use = rng.random() < 0.9 if nom is not None else True
             if cfg["adapt"] and rng.random() < 0.7:
                 use = True
-            ops.append(dict(op="deriv", order=rng.choice([1, 1, 2, 2, 3]) if rng.random() < 0.3
-                            else rng.choice([1, 2]), use=use, kind=kind, shape=shape, pts=pts,
-                            dxexp=rng.choice([6, 8, 8, 10]), cat=cat))
+            ops.append(_typed(rng, dict(op="deriv", order=rng.choice([1, 1, 2, 2, 3])
+                                        if rng.random() < 0.3 else rng.choice([1, 2]), use=use,
+                                        kind=kind, shape=shape, pts=pts,
+                                        dxexp=rng.choice([6, 8, 8, 10]), cat=cat)))
         elif r < 0.66:
             if nom is None:
                 a = _g(rng, -3, 1)
@@ -128,6 +179,12 @@ def gen_seq(rng, maxlen):
             else:
                 a = nom[0] - rng.choice([0, 0, 1, 2, 4, -1]) / rng.choice([1, 2, 4])
                 b = nom[1] + rng.choice([0, 0, 1, 2, 4, -1]) / rng.choice([1, 2, 4])
+                if rng.random() < 0.2:
+                    # an extension by a few ulp only
+                    a = float(nom[0] - rng.choice([1, 2, 3, 10, 1000, 10 ** 6]) *
+                              np.spacing(abs(nom[0]) if nom[0] else 1.0))
+                    b = float(nom[1] + rng.choice([1, 2, 3, 10, 1000, 10 ** 6]) *
+                              np.spacing(abs(nom[1]) if nom[1] else 1.0))
             nlo = rng.choice([0, 1, 2, 2, 4, 8, 3])
             nhi = rng.choice([0, 1, 2, 2, 4, 8, 3])
             ops.append(dict(op="extend", a=a, b=b, nlo=nlo, nhi=nhi))
@@ -145,8 +202,15 @@ def gen_seq(rng, maxlen):
                 pts = [pts[0]] * m
             ops.append(dict(op="sched", kind=rng.choice(["arr1", "scalar"]) if m == 1 else "arr1",
                             pts=pts))
-        elif r < 0.96:
+        elif r < 0.93:
             ops.append(dict(op="wr"))
+        elif r < 0.965:
+            xs, how, ab = _xs_variant(rng, nom)
+            ops.append(dict(op=rng.choice(["fromvals", "readfile"]), xs=xs, how=how))
+            if how == "incr":
+                nom = ab
+        elif r < 0.972:
+            ops.append(dict(op="readmissing"))
         else:
             a = _g(rng, -3, 1)
             b = a + rng.choice([1, 2, 4, 0, -1]) / rng.choice([1, 2])
@@ -186,8 +250,19 @@ def systematic(ks):
                                   pts=[-2.0 ** -8, 0.5, top + 1.0, 0.75], dxexp=8)
                     ops = [dict(op="new", a=0.0, b=2.0, n=17), dict(op="modes", lo=lo, hi=hi),
                            e1, d1, e2, d2, dict(op="wr"), e1]
-                    seqs.append(dict(cfg=dict(k=k, thr=3, n0=10, adapt=(k % 2 == 0), bad=bad),
-                                     ops=ops))
+                    # user-supplied tables: glued from two pieces (must be rejected, table kept),
+                    # a different table read over the existing one, a missing file
+                    if lo == hi:
+                        ops += [dict(op="fromvals", xs=[1.0, 0.5, 0.0, 1.125, 1.25, 1.375], how="glued"),
+                                e2,
+                                dict(op="readfile", xs=[0.25, 0.5, 0.75, 1.0, 1.25], how="incr"),
+                                e2, dict(op="readmissing"),
+                                dict(op="fromvals", xs=[0.0, 0.5, 1.0, 1.25, 1.375], how="incr"), e1]
+                    cfg = dict(k=k, thr=3, n0=10, adapt=(k % 2 == 0), bad=bad)
+                    if bad:
+                        cfg["badcol"] = (MODES.index(lo) + MODES.index(hi)) % k
+                        cfg["badval"] = ["nan", "inf", "-inf"][(MODES.index(lo) + k) % 3]
+                    seqs.append(dict(cfg=cfg, ops=ops))
     return seqs
 
 
@@ -216,6 +291,15 @@ class Tick:
             return None
         return self.info.get(i)
 
+    def lookup_any(self, v):
+        """a ticket issued at any time (stored table values)"""
+        if not np.isfinite(v) or v != int(v):
+            return None
+        return self.info.get(int(v))
+
+
+BADVAL = {"nan": np.nan, "inf": np.inf, "-inf": -np.inf}
+
 
 def make_tag_spline(tick):
     from scipy.interpolate import CubicSpline
@@ -225,6 +309,8 @@ def make_tag_spline(tick):
 
         def __init__(self, x, y, axis=0, bc_type="not-a-knot", extrapolate=None):
             super().__init__(x, y, axis=axis, bc_type=bc_type, extrapolate=extrapolate)
+            self._c18_x = np.array(x, dtype=float)
+            self._c18_y = np.array(y, dtype=float)
             self._lo = float(self.x[0])
             self._hi = float(self.x[-1])
             self._trail = tuple(self.c.shape[2:])
@@ -256,9 +342,11 @@ def make_tag_class(tick):
     from WallGo import InterpolatableFunction
 
     class TagFn(InterpolatableFunction):
-        def __init__(self, bad, **kw):
+        def __init__(self, bad, badcol=0, badval="nan", **kw):
             super().__init__(**kw)
             self.bad = bad
+            self.badcol = badcol
+            self.badval = BADVAL[badval]
             self.calls = []
 
         def _functionImplementation(self, x):
@@ -270,9 +358,9 @@ def make_tag_class(tick):
                 out[idx] = tick.issue(("D", q))
                 if in_bad(self.bad, q):
                     if k > 1:
-                        out[idx + (k - 1,)] = np.nan
+                        out[idx + (self.badcol,)] = self.badval
                     else:
-                        out[idx] = np.nan
+                        out[idx] = self.badval
             return out
 
         def _evaluateOutOfBounds(self, x):
@@ -296,24 +384,47 @@ def mode_of(name):
 def make_input(op):
     kind = op.get("kind", "arr1")
     pts = op["pts"]
+    dt = op.get("dtype", "float")
+    npdt = dict(float=float, int=np.int64, f32=np.float32)[dt]
+    py = int if dt == "int" else float
     if kind == "scalar":
-        return float(pts[0])
+        return npdt(pts[0]) if dt == "f32" else py(pts[0])
+    if kind == "arr0":
+        return np.array(pts[0], dtype=npdt)
     if kind == "list":
-        return [float(p) for p in pts]
+        return [npdt(p) if dt == "f32" else py(p) for p in pts]
     if kind == "arr2":
-        return np.array(pts, dtype=float).reshape(op["shape"])
-    return np.array(pts, dtype=float)
+        return np.array(pts, dtype=npdt).reshape(op["shape"])
+    return np.array(pts, dtype=npdt)
 
 
-def snap(f):
+def snap(f, tick=None):
+    """observable state: through the public accessors where the class has them"""
     has = f.hasInterpolation()
     d = dict(hasT=bool(has), mlo=f.extrapolationTypeLower.name, mhi=f.extrapolationTypeUpper.name,
              adaptive=bool(f._bUseAdaptiveInterpolation), cnt=int(f._directEvaluateCount),
              pend=[float(v) for v in np.asarray(f._directlyEvaluatedAt, dtype=float).ravel()])
     if has:
         d.update(tab=[float(v) for v in np.asarray(f._interpolationPoints, dtype=float)],
-                 rmin=float(f._rangeMin), rmax=float(f._rangeMax),
+                 rmin=float(f.interpolationRangeMin()), rmax=float(f.interpolationRangeMax()),
+                 npts=int(f.numPoints()),
                  extrap=bool(f._interpolatedFunction.extrapolate))
+        if tick is not None:
+            # provenance of the stored values: the abscissa each row was computed at
+            vals = np.asarray(f._interpolationValues, dtype=float)
+            rows = vals.reshape(len(vals), -1)
+            out = []
+            for row in rows:
+                info = tick.lookup_any(row[0])
+                ok = info is not None and info[0] == "D" and bool(np.all(row == row[0]))
+                out.append(info[1] if ok else 987654.0)
+            d["vals"] = out
+            # the spline object in use must have been built from exactly these columns
+            sp = f._interpolatedFunction
+            if not (getattr(sp, "_c18_x", None) is not None and
+                    np.array_equal(sp._c18_x, np.asarray(d["tab"])) and
+                    np.array_equal(sp._c18_y, vals)):
+                d["vals"] = [987654.0]
     return d
 
 
@@ -337,7 +448,7 @@ def direct_pos(op):
 
 def decode_elem(tick, vals, q):
     vals = np.atleast_1d(np.asarray(vals, dtype=float))
-    if np.any(np.isnan(vals)):
+    if np.any(~np.isfinite(vals)):
         return ("DN", q)
     info = tick.lookup(vals[0])
     if info is None or np.any(vals != vals[0]):
@@ -359,6 +470,8 @@ def apply_op(f, op, tmpdir):
     if o == "new":
         return f.newInterpolationTable(op["a"], op["b"], op["n"])
     if o == "eval":
+        if op.get("via") == "call":
+            return f(make_input(op), op["use"])
         return f.evaluate(make_input(op), op["use"])
     if o == "deriv":
         return f.derivative(make_input(op), order=op["order"], bUseInterpolation=op["use"],
@@ -375,10 +488,37 @@ def apply_op(f, op, tmpdir):
         x = make_input(op)
         return f.scheduleForInterpolation(x, f._functionImplementation(x))
     if o == "wr":
-        p = os.path.join(tmpdir, "table.txt")
+        p = fresh_path(tmpdir)
         f.writeInterpolationTable(p)
+        # the writer swallows every exception: make sure it really wrote this file
+        if not os.path.exists(p):
+            raise HarnessError("writeInterpolationTable produced no file")
+        f._c18_last_path = p
         return f.readInterpolationTable(p)
+    if o == "fromvals":
+        x = np.array(op["xs"], dtype=float)
+        return f.newInterpolationTableFromValues(x, f._functionImplementation(x))
+    if o == "readfile":
+        # a file in the documented format (x f1(x) f2(x) ...), written by the harness
+        x = np.array(op["xs"], dtype=float)
+        fx = np.asarray(f._functionImplementation(x), dtype=float)
+        p = fresh_path(tmpdir)
+        np.savetxt(p, np.column_stack((x, fx)), fmt="%.15g", delimiter=" ")
+        return f.readInterpolationTable(p)
+    if o == "readmissing":
+        return f.readInterpolationTable(os.path.join(tmpdir, "no_such_table_%d.txt" % next(_COUNTER)))
     raise KeyError(o)
+
+
+class HarnessError(Exception):
+    pass
+
+
+_COUNTER = itertools.count()
+
+
+def fresh_path(tmpdir):
+    return os.path.join(tmpdir, "table_%d.txt" % next(_COUNTER))
 
 
 def on_grid(v):
@@ -389,25 +529,33 @@ class TagWorld:
     """the real class with recording collaborators (pass A)"""
 
     def __init__(self):
+        import scipy.interpolate
         import WallGo.interpolatableFunction as mod
-        self.mod = mod
         self.tick = Tick()
-        self.orig = mod.CubicSpline
         self.spline = make_tag_spline(self.tick)
         self.cls = make_tag_class(self.tick)
+        # every name under which the class may reach scipy's CubicSpline (the module's own
+        # import, or scipy.interpolate.CubicSpline through a module alias)
+        self.sites = [(m, "CubicSpline") for m in (mod, scipy.interpolate)
+                      if hasattr(m, "CubicSpline")]
+        self.saved = []
 
     def __enter__(self):
-        self.mod.CubicSpline = self.spline
+        self.saved = [(m, n, getattr(m, n)) for m, n in self.sites]
+        for m, n in self.sites:
+            setattr(m, n, self.spline)
         return self
 
     def __exit__(self, *a):
-        self.mod.CubicSpline = self.orig
+        for m, n, v in self.saved:
+            setattr(m, n, v)
 
     def run(self, seq, tmpdir):
         """-> (ops actually compared, observations, note)"""
         cfg = seq["cfg"]
         tick = self.tick
-        f = self.cls(cfg["bad"], bUseAdaptiveInterpolation=cfg["adapt"],
+        f = self.cls(cfg["bad"], cfg.get("badcol", 0), cfg.get("badval", "nan"),
+                     bUseAdaptiveInterpolation=cfg["adapt"],
                      initialInterpolationPointCount=cfg["n0"], returnValueCount=cfg["k"])
         f._evaluationsUntilAdaptiveUpdate = cfg["thr"]
         k = cfg["k"]
@@ -430,7 +578,7 @@ class TagWorld:
                 exc = type(e).__name__
             if exc is not None and exc not in ERRS:
                 ops.append(op)
-                obs.append(dict(out=("other", exc), st=snap(f)))
+                obs.append(dict(out=("other", exc), st=snap(f, tick)))
                 note = "unexpected exception class %s" % exc
                 break
             if o in ("eval", "deriv"):
@@ -440,22 +588,23 @@ class TagWorld:
                 out = (dict(eval="eval", deriv="deriv").get(o, "unit"), "err", ERRS[exc])
             elif o == "eval":
                 tags = decode_array(tick, r, xflat, k)
-                out = ("eval", "ok", list(np.shape(r)), tags if tags is not None else [])
+                if np.asarray(r).dtype != np.float64:
+                    tags = None              # values must come back as floats whatever the input type
+                out = ("eval", "ok", list(np.shape(r)), tags if tags is not None else [("U",)])
             elif o == "deriv":
-                out = ("deriv", "ok", list(np.shape(r)), self.decode_deriv(f, op, r, x, xflat, k))
+                dt = self.decode_deriv(f, op, r, x, xflat, k)
+                if np.asarray(r).dtype != np.float64:
+                    dt = [("DOne", ("U",))]
+                out = ("deriv", "ok", list(np.shape(r)), dt)
             else:
                 out = ("unit", "ok")
-            s = snap(f)
-            ends_ok = (not s["hasT"]) or (on_grid(s["rmin"]) and on_grid(s["rmax"]))
-            pend_ok = all(on_grid(v) for v in s["pend"])
-            if not ends_ok:
-                note = "truncated before op %d: table ends leave the dyadic grid" % len(ops)
-                break
+            s = snap(f, tick)
+            if s["hasT"] and not isinstance(f._interpolatedFunction, self.spline):
+                raise HarnessError("the class did not build its spline through a patched name")
+            if s["hasT"] and s["npts"] != len(s["tab"]):
+                s["tab"] = []                 # numPoints() disagrees with the stored table
             ops.append(op)
             obs.append(dict(out=out, st=s))
-            if not pend_ok:
-                note = "truncated after op %d: pending points leave the dyadic grid" % (len(ops) - 1)
-                break
         return ops, obs, note
 
     def decode_deriv(self, f, op, r, x, xflat, k):
@@ -484,6 +633,14 @@ class TagWorld:
             m = pin.shape[1] if pin.ndim == 2 else 0
             cols = [("DFD", [tags[j * m + i] for j in range(pin.shape[0])]) for i in range(m)] \
                 if tags is not None and m else []
+            # the value written into an out-of-range cell must be the stencil combination of
+            # ITS column (coefficients of helpers, step dx): pins scatter order and weights
+            from WallGo import helpers
+            co = (helpers.FIRST_DERIV_COEFF if order == 1 else helpers.SECOND_DERIV_COEFF)["4"][0]
+            dx = 2.0 ** -op["dxexp"]
+            po = pout.reshape(pin.shape[0], m, -1) if m else pout
+            fdvals = [np.tensordot(co, po[:, i, :], axes=(0, 0)) / dx ** order for i in range(m)] \
+                if m and len(co) == pin.shape[0] else []
         res = []
         ci = 0
         for i in range(len(xflat)):
@@ -492,7 +649,12 @@ class TagWorld:
             if info is not None and info[0] == "S" and info[1] == order and np.all(vals == vals[0]):
                 res.append(("DOne", info))
             elif ci < len(cols):
-                res.append(cols[ci])
+                if oob and ci < len(fdvals) and np.all(np.isfinite(fdvals[ci])) and not np.allclose(
+                        vals, fdvals[ci], rtol=1e-9, atol=1e-9 * np.max(np.abs(fdvals[ci]) + 1),
+                        equal_nan=True):
+                    res.append(("DOne", ("U",)))
+                else:
+                    res.append(cols[ci])
                 ci += 1
             else:
                 res.append(("DOne", ("U",)))
@@ -556,6 +718,12 @@ def coq_op(op):
         return "DisableAdaptive"
     if o == "sched":
         return "Schedule %s" % qlist(op["pts"])
+    if o == "fromvals":
+        return "FromValues %s" % qlist(op["xs"])
+    if o == "readfile":
+        return "ReadFile %s" % qlist(op["xs"])
+    if o == "readmissing":
+        return "ReadMissing"
     return "WriteRead"
 
 
@@ -573,9 +741,10 @@ def coq_out(out):
 
 def coq_st(cfg, s):
     if s["hasT"]:
-        t = "true %s %s %s %s" % (qlist(s["tab"]), q(s["rmin"]), q(s["rmax"]), b(s["extrap"]))
+        t = "true %s %s %s %s %s" % (qlist(s["tab"]), qlist(s.get("vals", s["tab"])), q(s["rmin"]),
+                                     q(s["rmax"]), b(s["extrap"]))
     else:
-        t = "false [] 0 0 false"
+        t = "false [] [] 0 0 false"
     return "(mkst %d%%nat %d%%nat %d%%nat %s %s %s %s %d%%nat %s)" % (
         cfg["k"], cfg["thr"], cfg["n0"], t, s["mlo"], s["mhi"], b(s["adaptive"]), s["cnt"],
         qlist(s["pend"]))
@@ -638,7 +807,7 @@ def differential(ctx, world, seqs, tmpdir, label):
                       dict(kind="sequence", seq=jseq(seq["cfg"], ops)),
                       "%s-raises-%s" % (ops[-1]["op"], obs[-1]["out"][1]))
     terms = [coq_case(s["cfg"], ops, obs) for s, ops, obs, _ in ok_runs]
-    bad = ctx.run_cases("diff_" + label, HEADER, terms, per_file=60)
+    bad = ctx.run_cases("diff_" + label, HEADER, terms, per_file=60, jobs=JOBS)
     failing = []
     for bb in bad:
         if not bb["cases"]:
@@ -716,14 +885,28 @@ def make_real_class():
     from WallGo import InterpolatableFunction
 
     class RealFn(InterpolatableFunction):
-        def __init__(self, bad, **kw):
+        def __init__(self, bad, badcol=0, badval="nan", **kw):
             super().__init__(**kw)
-            self.bad = bad
+            self.bad = bad if bad is None else Bad(bad, badcol, badval)
 
         def _functionImplementation(self, x):
             return fval(x, self._RETURN_VALUE_COUNT, self.bad, 0)
 
     return RealFn
+
+
+class Bad(list):
+    """non-finite window [lo, hi] + which component is poisoned with what"""
+
+    def __init__(self, window, col=0, val="nan"):
+        super().__init__(window[:2])
+        self.col = getattr(window, "col", col)
+        self.val = getattr(window, "val", BADVAL[val] if isinstance(val, str) else val)
+
+
+def cfg_bad(cfg):
+    return None if cfg["bad"] is None else Bad(cfg["bad"], cfg.get("badcol", 0),
+                                               cfg.get("badval", "nan"))
 
 
 def fval(x, k, bad, d):
@@ -738,11 +921,41 @@ def fval(x, k, bad, d):
     out = np.array(out, dtype=float)
     if bad is not None:
         m = (x >= bad[0]) & (x <= bad[1])
+        val = getattr(bad, "val", np.nan)
         if k > 1:
-            out[m, k - 1] = np.nan
+            out[m, getattr(bad, "col", k - 1)] = val
         else:
-            out[m] = np.nan
+            out[m] = val
     return out
+
+
+def interp_tol(tab, x, d=0):
+    """bound on |spline^(d) - f^(d)| at x for f = sin(0.7 x + j) (|f2| <= 0.49, |f3| <= 0.343,
+    |f4| <= 0.2401) on the knots `tab` (d = 0 only for fewer than 4 knots):
+      2 knots (scipy: straight line) : h^2/8 |f2|
+      3 knots (scipy: parabola)      : max|w|/6 |f3| <= (x3-x1)^3 * 4/27 / 6 * |f3|
+      >= 4 knots (not-a-knot cubic)  : K_d |f4| ( c_d h_i^(4-d) + h_i^(1-d) S_i / 24 ),
+        h_i the interval holding x, c_d = 5/384, 1/24, 3/8 the Hall-Meyer constants of cubic
+        spline interpolation, S_i = max_m 2^-|m-i| h_m^3 the slope error fed in by the other
+        intervals (it decays at least by 1/2 per knot: diagonal dominance of the spline system).
+    On 6e4 random meshes of the kinds the generators produce (uniform, extended with other
+    spacings, with a dropped window, with a cluster of finite-difference stencil points) the
+    largest observed error / bound(K=1) was 0.76, 3.0, 2.9 for d = 0, 1, 2."""
+    tab = np.asarray(tab, dtype=float)
+    n = len(tab)
+    if n == 2:
+        h = tab[1] - tab[0]
+        return 1.02 * h * h / 8 * 0.49 + 1e-12
+    if n == 3:
+        return 1.02 * (tab[2] - tab[0]) ** 3 * 4 / 27 / 6 * 0.343 + 1e-12
+    i = int(np.clip(np.searchsorted(tab, x) - 1, 0, n - 2))
+    g = np.diff(tab)
+    h = float(g[i])
+    S = float(np.max(g ** 3 * 0.5 ** np.abs(np.arange(len(g)) - i)))
+    c = (5 / 384, 1 / 24, 3 / 8)[d]
+    # floating-point floor: values 1e-12; derivatives of a spline on tiny intervals lose digits
+    floor = (1e-11, 1e-9 / h + 1e-9, 1e-9 / h ** 2 + 1e-6)[d]
+    return (4.0, 10.0, 10.0)[d] * 0.2401 * (c * h ** (4 - d) + h ** (1 - d) * S / 24) + floor
 
 
 class Real:
@@ -750,6 +963,13 @@ class Real:
         self.ctx = ctx
         self.cls = make_real_class()
         self.tmpdir = tmpdir
+
+    def make(self, cfg):
+        f = self.cls(cfg["bad"], cfg.get("badcol", 0), cfg.get("badval", "nan"),
+                     bUseAdaptiveInterpolation=cfg["adapt"],
+                     initialInterpolationPointCount=cfg["n0"], returnValueCount=cfg["k"])
+        f._evaluationsUntilAdaptiveUpdate = cfg["thr"]
+        return f
 
     def fail(self, what, seq, i, key, **extra):
         ops = seq["ops"][:i + 1]
@@ -761,10 +981,8 @@ class Real:
     def run(self, seq):
         ctx = self.ctx
         cfg = seq["cfg"]
-        k, bad = cfg["k"], cfg["bad"]
-        f = self.cls(bad, bUseAdaptiveInterpolation=cfg["adapt"],
-                     initialInterpolationPointCount=cfg["n0"], returnValueCount=k)
-        f._evaluationsUntilAdaptiveUpdate = cfg["thr"]
+        k, bad = cfg["k"], cfg_bad(cfg)
+        f = self.make(cfg)
         trail = (k,) if k > 1 else ()
         for i, op in enumerate(seq["ops"]):
             o = op["op"]
@@ -791,9 +1009,24 @@ class Real:
                               "stored abscissae after %s" % (post["rmin"], post["rmax"], t[0],
                                                              t[-1], o), seq, i, "range-not-table-ends")
                     return
-                if not np.all(np.isfinite(np.asarray(f._interpolationValues, dtype=float))):
+                vals_now = np.asarray(f._interpolationValues, dtype=float)
+                if not np.all(np.isfinite(vals_now)):
                     self.fail("non-finite value stored in the table after %s" % o, seq, i,
                               "nonfinite-in-table")
+                    return
+                if post["npts"] != len(t):
+                    self.fail("numPoints() = %d but %d abscissae are stored" % (post["npts"], len(t)),
+                              seq, i, "accessor-numpoints")
+                    return
+                # every stored value is the function's value at the abscissa stored with it
+                want_v = fval(t, k, None, 0)
+                if vals_now.shape != want_v.shape or \
+                        np.max(np.abs(vals_now - want_v)) > 2e-14:
+                    self.fail("stored values are not the function at the stored abscissae after %s "
+                              "(max deviation %.3g)" % (o, float(np.max(np.abs(
+                                  vals_now.reshape(len(t), -1) - want_v.reshape(len(t), -1))))
+                                  if vals_now.size == want_v.size else float("nan")),
+                              seq, i, "values-not-paired")
                     return
                 want = "FUNCTION" in (post["mlo"], post["mhi"])
                 if post["extrap"] != want:
@@ -864,6 +1097,11 @@ class Real:
             self.fail("evaluation outside the table on an ERROR side returned a value", seq, i,
                       "error-mode-silent")
             return False
+        if np.asarray(r).dtype != np.float64:
+            self.fail("evaluate on %s input returns dtype %s" % (op.get("dtype", "float"),
+                                                                 np.asarray(r).dtype), seq, i,
+                      "result-dtype")
+            return False
         r = np.asarray(r, dtype=float)
         if r.shape != x.shape + trail:
             self.fail("evaluate: result shape %s for input shape %s (return count %d)" % (
@@ -884,9 +1122,9 @@ class Real:
                 continue
             fin = np.isfinite(tv)
             if side == "in":
-                tol = 0.5 * h * h + 1e-9
+                tol = interp_tol(tab, xv)
                 bad_ = np.any(~np.isfinite(got)) or np.any(np.abs(got - tv)[fin] > tol)
-                what, key = "inside the table", "eval-value-inside"
+                what, key = "inside the table (tolerance %.3g)" % tol, "eval-value-inside"
             elif mode == "NONE":
                 bad_ = not np.array_equal(got, tv, equal_nan=True)
                 what, key = "mode NONE (direct evaluation)", "eval-value-none"
@@ -955,6 +1193,11 @@ class Real:
             self.fail("derivative outside the table on an ERROR side returned a value", seq, i,
                       "error-mode-silent")
             return False
+        if np.asarray(r).dtype != np.float64:
+            self.fail("derivative on %s input returns dtype %s" % (op.get("dtype", "float"),
+                                                                   np.asarray(r).dtype), seq, i,
+                      "result-dtype")
+            return False
         r = np.asarray(r, dtype=float)
         if r.shape != x.shape + trail:
             self.fail("derivative: result shape %s for input shape %s (return count %d)" % (
@@ -978,8 +1221,9 @@ class Real:
                 what, key = "inside the table", "deriv-value-inside"
                 if np.any(~np.isfinite(got)):
                     bad_ = True
-                elif fine:
-                    tol = (h * h + 1e-6) if n == 1 else 2.0 * h
+                elif len(tab) >= 4:
+                    tol = interp_tol(tab, xv, n)
+                    what = "inside the table (tolerance %.3g)" % tol
                     bad_ = np.any(np.abs(got - tv)[fin] > tol)
             else:
                 edge = pre["rmin"] if side == "lo" else pre["rmax"]
@@ -1097,6 +1341,89 @@ class Real:
         if np.max(np.abs(np.asarray(f(xs)) - ref)) > tol:
             self.fail("write + read does not reproduce the interpolated function", seq, i,
                       "roundtrip")
+            return False
+        # the same file read by a FRESH object of the same configuration and modes reproduces
+        # the function: table, values, in-range values and out-of-range dispatch
+        g = self.make(seq["cfg"])
+        g.disableAdaptiveInterpolation()
+        g.setExtrapolationType(mode_of(post["mlo"]), mode_of(post["mhi"]))
+        try:
+            g.readInterpolationTable(f._c18_last_path)
+            tg = np.asarray(g._interpolationPoints, dtype=float)
+            vg = np.asarray(g._interpolationValues, dtype=float)
+            same = tg.shape == t1.shape and np.array_equal(tg, t1) and np.array_equal(vg, v1) and \
+                g.interpolationRangeMin() == t1[0] and g.interpolationRangeMax() == t1[-1]
+            if same:
+                probe = np.concatenate((xs, [t1[0] - 0.25, t1[-1] + 0.25]))
+                adaptive = f._bUseAdaptiveInterpolation
+                f.disableAdaptiveInterpolation()
+                try:
+                    try:
+                        want = ("ok", np.asarray(f(probe)))
+                    except ValueError:
+                        want = ("ValueError", None)
+                    try:
+                        got = ("ok", np.asarray(g(probe)))
+                    except ValueError:
+                        got = ("ValueError", None)
+                finally:
+                    if adaptive:
+                        f._bUseAdaptiveInterpolation = True
+                same = want[0] == got[0] and (want[1] is None or
+                                               np.array_equal(want[1], got[1], equal_nan=True))
+        except Exception as e:  # noqa
+            self.fail("a fresh object cannot read the written table: %s %s" % (
+                type(e).__name__, str(e)[:60]), seq, i, "roundtrip-fresh")
+            return False
+        if not same:
+            self.fail("a fresh object reading the written table does not reproduce table, values "
+                      "and evaluations of the writer", seq, i, "roundtrip-fresh")
+            return False
+        return True
+
+    def user_table(self, seq, i, op, pre, post, exc, f, k, bad, exact):
+        """newInterpolationTableFromValues / readInterpolationTable on user rows (x, f(x)) in the
+        given order: either a valid table of exactly the finite rows, or ValueError and the old
+        table untouched"""
+        xs = np.array(op["xs"], dtype=float)
+        keep = np.array([not in_bad(bad, v) for v in xs], dtype=bool)
+        xf = xs[keep]
+        feasible = len(xf) >= 2 and bool(np.all(np.diff(xf) > 0))
+        if exc is not None:
+            if feasible or not isinstance(exc, ValueError):
+                self.fail("user table %s (%s order) raised %s: %s" % (
+                    np.round(xs, 4).tolist(), op.get("how"), type(exc).__name__, str(exc)[:60]),
+                    seq, i, "user-table-raises-%s" % type(exc).__name__)
+                return False
+            if pre.get("tab") != post.get("tab") or pre["hasT"] != post["hasT"]:
+                self.fail("a rejected user table changed the stored table", seq, i,
+                          "user-table-rejected-but-changed")
+                return False
+            return True
+        if not feasible:
+            self.fail("user table with abscissae %s (%s order; finite rows %s) was accepted: the "
+                      "spline needs strictly increasing abscissae and must keep each value with "
+                      "its abscissa" % (np.round(xs, 4).tolist(), op.get("how"),
+                                        np.round(xf, 4).tolist()), seq, i, "user-table-accepted")
+            return False
+        if not np.array_equal(np.array(post["tab"]), xf):
+            self.fail("user table: stored abscissae %s are not the finite rows %s" % (
+                np.round(post["tab"], 4).tolist(), np.round(xf, 4).tolist()), seq, i,
+                "rows-not-dropped-individually")
+            return False
+        return True                      # values: universal pairing check
+
+    def chk_fromvals(self, seq, i, op, pre, post, r, exc, f, k, bad, trail):
+        return self.user_table(seq, i, op, pre, post, exc, f, k, bad, True)
+
+    def chk_readfile(self, seq, i, op, pre, post, r, exc, f, k, bad, trail):
+        return self.user_table(seq, i, op, pre, post, exc, f, k, bad, False)
+
+    def chk_readmissing(self, seq, i, op, pre, post, r, exc, f, k, bad, trail):
+        if exc is not None:
+            return self.unexpected(seq, i, op, exc)
+        if pre.get("tab") != post.get("tab") or pre["hasT"] != post["hasT"]:
+            self.fail("reading a missing file changed the table", seq, i, "read-missing")
             return False
         return True
 
